@@ -53,6 +53,17 @@ fn main() {
             println!("{}", if real == model.outcome { "AGREE" } else { "DISAGREE" });
         }
         Some("debug-large") => debug_large(),
+        Some("debug-similar") => {
+            let mut rng = util::Rng::new(args.get(2).and_then(|x| x.parse().ok()).unwrap_or(1));
+            for _ in 0..30 {
+                let mut r = rng.fork();
+                let c = gen::similar_rejection_case(&mut r);
+                let full = detect::real_detect(&c.bytes, &c.sett);
+                let n = match &full { detect::Outcome::Ok(v) => v.len(), _ => 0 };
+                let has1258 = match &full { detect::Outcome::Ok(v) => v.iter().any(|m| m.cands().iter().any(|e| e == "windows-1258")), _ => false };
+                println!("{} len={} fb={} thr={} matches={} lists1258={}", c.tag, c.bytes.len(), c.sett.fb, c.sett.thr, n, has1258);
+            }
+        }
         Some("batch") => {
             let seed: u64 = args[2].parse().unwrap();
             let n: usize = args[3].parse().unwrap();
